@@ -1,10 +1,122 @@
-(* handlers: Sys/ models (environment) *)
+(* handlers: Sys/ models (stdio sinks, exit status, --replace-input) for C10 / C11. I/O only. *)
 open Qvmodel
 open Runner
 
+let rec take_n k l = if k <= 0 then [] else match l with [] -> [] | x :: t -> x :: take_n (k - 1) t
+let rec drop_n k l = if k <= 0 then l else match l with [] -> [] | _ :: t -> drop_n (k - 1) t
+let rec split_lens (d : n list) (lens : int list) : n list list =
+  match lens with
+  | [] -> []
+  | k :: tl -> let a = take_n k d in a :: split_lens (drop_n k d) tl
+let chunks_of lens hexs = split_lens (unhexbytes hexs) (ints_of lens)
+let bangs s = String.split_on_char '!' s
+
+let rec pairs3 l = match l with
+  | a :: b :: c :: tl -> (nat_of_int (int_of_string a), chunks_of b c) :: pairs3 tl
+  | _ -> []
+
+let parse_scen (s : string) : c10_scen =
+  match bangs s with
+  | "W" :: name :: lens :: hx :: [] -> ScWrite (nat_of_int (int_of_string name), chunks_of lens hx)
+  | "S" :: rest -> ScSplit (pairs3 rest)
+  | "J" :: main :: items ->
+    let item it = match String.split_on_char '~' it with
+      | ["C"; hx] -> JChunk (unhexbytes hx)
+      | ["O"; name] -> JStreamOpen (nat_of_int (int_of_string name))
+      | ["D"; name; hx] -> JStreamChunk (nat_of_int (int_of_string name), unhexbytes hx)
+      | ["E"; name] -> JStreamEnd (nat_of_int (int_of_string name))
+      | _ -> failwith "jitem" in
+    ScJson (nat_of_int (int_of_string main), List.map item items)
+  | "O" :: nfin :: ntie :: sw :: items ->
+    let item it = match String.split_on_char '~' it with
+      | ["C"; hx] -> OChunk (unhexbytes hx)
+      | ["T"] -> OTie
+      | _ -> failwith "oitem" in
+    ScStdout (List.map item items, nat_of_int (int_of_string nfin), nat_of_int (int_of_string ntie), sw = "1")
+  | "R" :: inp :: backup :: temp :: lens :: hx :: [] ->
+    ScReplace (nat_of_int (int_of_string inp), nat_of_int (int_of_string backup), nat_of_int (int_of_string temp), chunks_of lens hx)
+  | _ -> failwith "scen"
+
+let parse_checks (s : string) : c10_checks =
+  let b i = String.length s > i && s.[i] = '1' in
+  if String.length s = 1 then (if s = "1" then c10_repaired else c10_unrepaired)
+  else { ck_finish = b 0; ck_wclose = b 1; ck_jsclose = b 2; ck_jclose = b 3; ck_ostream = b 4; ck_stdout = b 5 }
+
+(* fault token -> (oracle, initcap) *)
+let parse_fault (t : string) : (nat -> c10_fact) * nat option =
+  match String.split_on_char '@' t with
+  | ["none"] -> ((fun _ -> FaNone), None)
+  | [m; v] ->
+    let k = int_of_string v in
+    (match m with
+     | "cap" -> ((fun _ -> FaNone), Some (nat_of_int k))
+     | "disk" -> ((fun x -> let i = int_of_nat x in if i = k then FaFull else if i > k then FaStreamFull else FaNone), None)
+     | _ ->
+       let a = (match m with "full" -> FaFull | "fail" -> FaFail | "killb" -> FaKillB | "killa" -> FaKillA
+                             | _ -> failwith "fault mode") in
+       ((fun x -> if int_of_nat x = k then a else FaNone), None))
+  | _ -> failwith "fault"
+
+let ec_name = function EcOpen -> "open" | EcWrite -> "write" | EcFlush -> "flush" | EcClose -> "close"
+                     | EcRename -> "rename" | EcStdout -> "stdout" | EcLoop -> "loop"
+let diag_str = function
+  | DgErr (c, name) -> Printf.sprintf "E%s:%d" (ec_name c) (int_of_nat name)
+  | DgWarn -> "W" | DgKept -> "K" | DgUnlink -> "U"
+let pm b = if b then "+" else "-"
+let ev_str = function
+  | EvOpen (n, ok) -> Printf.sprintf "o%d%s" (int_of_nat n) (pm ok)
+  | EvWrite (n, l, r) -> Printf.sprintf "w%d:%d:%d" (int_of_nat n) (int_of_nat l) (int_of_nat r)
+  | EvFlush (n, ok) -> Printf.sprintf "f%d%s" (int_of_nat n) (pm ok)
+  | EvClose (n, ok) -> Printf.sprintf "c%d%s" (int_of_nat n) (pm ok)
+  | EvRename (a, b, ok) -> Printf.sprintf "r%d>%d%s" (int_of_nat a) (int_of_nat b) (pm ok)
+  | EvUnlink (a, ok) -> Printf.sprintf "u%d%s" (int_of_nat a) (pm ok)
+
+let result_str (verbose : bool) (r : c10_result) : string =
+  let w = r.rs_world in
+  let ex = match r.rs_exit with None -> "K" | Some c -> string_of_int (int_of_nat c) in
+  let diags = String.concat "," (List.rev_map diag_str w.cw_diag) in
+  let files = List.map (fun (name, f) ->
+      let s = string_of_bytes (sio_disk f) in
+      (int_of_nat name, Printf.sprintf "%d:%d:%s:%s" (int_of_nat name) (String.length s) (Digest.to_hex (Digest.string s))
+                          (if f.sf_err then "e" else "-"))) w.cw_dir in
+  let files = List.sort compare files in
+  let trace = String.concat " " (List.rev_map ev_str w.cw_trace) in
+  Printf.sprintf "%s|%s|%s|%d|%s" ex (if diags = "" then "-" else diags)
+    (if files = [] then "-" else String.concat "," (List.map snd files)) (int_of_nat w.cw_n)
+    (if verbose then String.map (fun c -> if c = ' ' then '_' else c) trace else Digest.to_hex (Digest.string trace))
+
+let c10_handler verbose args = match args with
+  | [ck; b; rounds; warn; wx0; scen; orig; faults] ->
+    let sc = parse_scen scen in
+    let cks = parse_checks ck in
+    let origb = unhexbytes orig in
+    let one t =
+      let (fo, cap) = parse_fault t in
+      let en = { en_B = nat_of_int (int_of_string b); en_fault = fo; en_initcap = cap;
+                 en_exit_rounds = nat_of_int (int_of_string rounds); en_ck = cks } in
+      result_str verbose (c10_run en (warn = "1") (wx0 = "1") sc origb) in
+    String.concat " " (List.map one (String.split_on_char ',' faults))
+  | _ -> "?args"
+
 let () =
-  register "envmodel" (fun args -> match args with
-    | ["static_id"] -> hexbytes static_id
-    | ["static_iv"] -> hexbytes (initial_vector IvStatic { e_time = N0; e_outname = []; e_rand = (fun _ -> N0) } O)
-    | ["zero_iv"] -> hexbytes (initial_vector IvZero { e_time = N0; e_outname = []; e_rand = (fun _ -> N0) } O)
+  register "c10run" (c10_handler false);
+  register "c10trace" (c10_handler true)
+
+(* the specifications on an observed run *)
+let cls_of = function "O" -> ClOrig | "N" -> ClNew | "A" -> ClAbsent | _ -> ClOther
+let () =
+  register "c10obs" (fun args -> match args with
+    | [ex; warned; errmsg; complete; failure; wx0] ->
+      let o = { ob_exit = nat_of_int (int_of_string ex); ob_warned = (warned = "1"); ob_errmsg = (errmsg = "1");
+                ob_complete = (complete = "1"); ob_failure = (failure = "1"); ob_wx0 = (wx0 = "1") } in
+      (match c10_obs_violations o with
+       | [] -> "ok"
+       | l -> "clauses-violated:" ^ String.concat "," (List.map (fun x -> string_of_int (int_of_nat x)) l))
+    | _ -> "?args");
+  register "c11obs" (fun args -> match args with
+    | [ex; unl; a; b; c] ->
+      let d = { do_in = cls_of a; do_backup = cls_of b; do_temp = cls_of c } in
+      let safe = c11_safe d in
+      let fin = if ex = "K" then true else c11_final_ok (nat_of_int (int_of_string ex)) (unl = "1") d in
+      if safe && fin then "ok" else Printf.sprintf "%s%s" (if safe then "" else "not-safe ") (if fin then "" else "final-state-wrong")
     | _ -> "?args")
